@@ -182,6 +182,28 @@ def fixtures():
     expect("R-SOCK-WRITE", got, ["sock_bad_write_all", "sock_bad_count_dropped"], ["sock_ok_partial"])
     got, _ = run_rule(rules_stream.rule_cg_atomic)
     expect("R-CG-ATOMIC", got, ["cg_bad_insert_then_err"], ["cg_ok_check_then_insert", "cg_ok_remove_none_is_err", "cg_ok_local_copy_mutated"])
+    # batch 11 rules
+    import rules_zset
+    got = set()
+    for fn, b in sorted(ctx.prog.bodies.items()):
+        if fn.startswith("b11::Eng::bu_") and b.kind != "Closure":
+            iss = rules_zset.bounds_used_issues(ctx, fn, b)
+            if iss:
+                got.add(fn)
+    expect("R-BOUNDS-USED", got, ["bu_bad_is_infinite_shortcut", "bu_bad_half_exact"], ["bu_ok_exact_fast_path", "bu_ok_plain"])
+    got = set()
+    for fn, b in sorted(ctx.prog.bodies.items()):
+        if fn.startswith("b11::rs_") and b.kind != "Closure":
+            iss = rules_coll.range_stop_issues(ctx, fn, b)
+            if iss and iss[0]:
+                got.add(fn)
+    expect("R-RANGE-STOP", got, ["rs_bad_stop_max0"], ["rs_ok_stop_negative_is_empty"])
+    got = set()
+    for fn, b in sorted(ctx.prog.bodies.items()):
+        if fn.startswith("b11::re_") and b.kind != "Closure":
+            if any(hit for _, hit in rules_stream.range_end_sites(ctx, b)):
+                got.add(fn)
+    expect("R-ST-RANGE-END", got, ["re_bad_saturating"], ["re_ok_empty_when_nothing_le_end"])
     _FX = (n, fails)
     return _FX
 
